@@ -1,0 +1,15 @@
+//go:build verif
+
+package obfs4
+
+// VerifGate, when set by a verification harness, is called at named points of
+// the server handshake.  It may block, which lets a harness force a particular
+// interleaving of concurrent handlers.  It is nil (a no-op) by default, and
+// this file is only part of builds with the "verif" tag.
+var VerifGate func(point string, buf []byte)
+
+func verifGate(point string, buf []byte) {
+	if g := VerifGate; g != nil {
+		g(point, buf)
+	}
+}
